@@ -59,6 +59,21 @@ DISPATCH_RULE = ("real Broker.Send runs over generated sets of 0..4 pipelines x 
                  "driver (every label must be enabled, the end state terminal, the collected Status equal to the ghost `got`); a run is non-trivial "
                  "when it has at least one pipeline, distinct by its full trace")
 
+def race_run(scen, q=8, t=150, s=60):
+    return dict(model="race:" + scen, sub="race", driver=None, race=True, use_corpus=False,
+                quick=["-scenario", scen, "-rounds", str(q)], thorough=["-scenario", scen, "-rounds", str(t)],
+                search=["-scenario", scen, "-rounds", str(s)])
+LOCK_ASSUME = [
+    "gofacts (harness/cmd/gofacts, go/ast + go/types with a stub importer) extracts field accesses, lock operations and call-back sites correctly: branch-aware linear lock tracking, same-package callees inlined with the caller's lock set, exported functions as entry points, unexported helpers analysed through their callers",
+    "hand-written parts of the extractor (trusted base): the escape summary `copystructure.Copy(e)` reads Event.Formatted without Event.l; excluded locations: Broker.clock (StopTimeAt is a test helper) and per-call helper objects (Status, options, tMap, trackedMaps, cloudevents.Event ...); self-synchronising field types (sync.Map, mutexes, WaitGroup, channels)",
+    "Go memory model: mutex release/acquire and sync.Map operations create happens-before edges; sync.Map gives per-key atomic Store/Delete/Range",
+    "the Go race detector run (harness built -race) validates the table against the code and is the search for a failing schedule; it is not the proof",
+]
+LOCK_RULE = ("proof obligations are `decide`d over tables regenerated from the current source on every run (168 access rows, 4 call-back sites, 12 lock-section counts ...); "
+             "the race harness runs 4 scenarios (overwrite/removal windows against concurrent Sends with marker nodes; 2-8 goroutines of random registry histories + senders with "
+             "invariants at quiescence; 1-4 pipelines composed from all stock nodes with shared nodes, 2-8 senders, concurrent Reopen/Rotate; concurrent gateable senders with slow "
+             "composition) under the race detector; a round is one independent configuration")
+
 PROPS = {
     "C01": dict(
         module="Evl.Props.C01",
@@ -84,6 +99,34 @@ PROPS = {
         assumptions=DISPATCH_ASSUME + ["partial: wall-clock promptness is measured by the harness (Send must return within 0.5 s of a cancel while nodes are held) but not part of any theorem; `prompt` is an enabledness statement"],
         rule=DISPATCH_RULE,
     ),
+    "C04": dict(
+        module="Evl.Props.C04",
+        theorems=["Evl.C04.discipline", "Evl.C04.discipline_ok", "Evl.C04.discipline_nonvacuous", "Evl.C04.one_section", "Evl.C04.swap_is_one_store",
+                  "Evl.C04.lockset_sound'", "Evl.C04.sequential"],
+        runs=[race_run("window,registry"), REGISTRY_RUN], oracle_prefixes=["C04"], models=["M4 Lockset", "M1 Registry", "Generated.Accesses/RegistryFacts"],
+        trusted_base=TB_COMMON + ["gofacts translator: Evl/Generated/*.lean are regenerated from /repo on every run"],
+        assumptions=LOCK_ASSUME + M1_ASSUME, rule=LOCK_RULE,
+        technique="Lean 4 proof (lock-set soundness theorem + kernel `decide` over facts regenerated from source by a translator) + race-detector concurrency harness as validation/search",
+    ),
+    "C12": dict(
+        module="Evl.Props.C12",
+        theorems=["Evl.C12.flat_step", "Evl.C12.flat_progress", "Evl.C12.w_reentry_deadlocks", "Evl.C12.r_reentry_deadlocks_with_writer", "Evl.C12.on_source"],
+        runs=[dict(model="reentry", sub="reentry", driver=None, use_corpus=False, quick=[], thorough=["-rounds", "20"], search=["-rounds", "5"])],
+        oracle_prefixes=["C12"], models=["M3 Locks", "Generated.LockSites"],
+        trusted_base=TB_COMMON + ["gofacts translator: Evl/Generated/LockSites.lean is regenerated from /repo on every run"],
+        assumptions=LOCK_ASSUME + ["sync.RWMutex is writer-preferring and not re-entrant (modelled in Evl.Locks.next)", "user nodes themselves return"],
+        rule="`on_source` is decided over the regenerated call-back table; the re-entry harness runs every Broker operation with nodes that call Send from Process / Close / Reopen, a gated.Filter wired to the same Broker with 0-3 pending groups, with and without a writer parked on the lock, under a watchdog",
+        technique="Lean 4 proof (progress theorem for flat threads over a writer-preferring RWMutex + `decide` over call-back sites regenerated from source) + re-entrant watchdog harness",
+    ),
+    "C19": dict(
+        module="Evl.Props.C19",
+        theorems=["Evl.C19.discipline_partial", "Evl.C19.sink_writes_exclusive", "Evl.C19.gated_compose_under_lock",
+                  "Evl.C19.no_nested_acquisition", "Evl.C19.table_nonvacuous"],
+        runs=[race_run("stock,gated"), race_run("stockenc", 4, 40, 20)], oracle_prefixes=["C19"], models=["M4 Lockset", "Generated.Accesses/LockSites"],
+        trusted_base=TB_COMMON + ["gofacts translator: Evl/Generated/*.lean are regenerated from /repo on every run"],
+        assumptions=LOCK_ASSUME, rule=LOCK_RULE,
+        technique="Lean 4 proof (lock-set soundness theorem + kernel `decide` over the access table regenerated from source) + race-detector harness over stock-node compositions",
+    ),
     "C05": dict(
         module="Evl.Props.C05",
         theorems=["Evl.C05.accept_iff", "Evl.C05.failed_noop", "Evl.C05.failed_graph_residue", "Evl.C05.isAny_iff",
@@ -103,7 +146,7 @@ PROPS = {
         theorems=["Evl.C07.deny_node_refuses", "Evl.C07.deny_node_sticky", "Evl.C07.deny_pipe_refuses", "Evl.C07.deny_pipe_sticky",
                   "Evl.C07.allow_node_overwrite", "Evl.C07.allow_pipe_overwrite", "Evl.C07.invalid_policy_rejected",
                   "Evl.C07.node_rebinding", "Evl.C07.one_version"],
-        runs=[REGISTRY_RUN], oracle_prefixes=["C07", "C01/C07"], models=["M1 Registry"],
+        runs=[REGISTRY_RUN, race_run("window")], oracle_prefixes=["C07", "C01/C07"], models=["M1 Registry"],
         trusted_base=TB_COMMON, assumptions=M1_ASSUME, rule=M1_RULE,
     ),
     "C20": dict(
@@ -118,7 +161,7 @@ PROPS = {
         module="Evl.Props.C11",
         theorems=["Evl.C11.conservation_step", "Evl.C11.conservation", "Evl.C11.no_duplication", "Evl.C11.passthrough",
                   "Evl.C11.no_id_rejected", "Evl.C11.never_gateable_via_broker", "Evl.C11.flush_trigger"],
-        runs=[GATED_RUN], oracle_prefixes=["C11"], models=["M6 Gated"],
+        runs=[GATED_RUN, race_run("gated", 15, 300, 100)], oracle_prefixes=["C11"], models=["M6 Gated"],
         trusted_base=TB_COMMON, assumptions=GATED_ASSUME + ["partial: the per-id grouping/arrival-order clause is checked on the implementation by the Go oracle and holds in the model by construction of addEvent; its Lean refinement theorem is not yet proved"],
         rule=GATED_RULE,
     ),
